@@ -261,7 +261,7 @@ func project(lg *ledgerkit.Ledger, nctr int) (fp fullProj) {
 		} else {
 			hi.Events = []string{"<none>"}
 		}
-		if h <= fp.BlockHeight && h <= fp.BlockHeight {
+		if h <= fp.BlockHeight {
 			var pf []byte
 			var perr error
 			if p := vio.Safe(func() { pf, perr = l.GetMerkleProof(bh[:], h, fp.BlockHeight) }); p != "" {
@@ -307,10 +307,22 @@ func diffProj(a, b fullProj) []string {
 						d = append(d, fmt.Sprintf("heights[%d]: present in one only", i))
 						continue
 					}
+					var pm, qm map[string]interface{}
 					p, _ := json.Marshal(ah[i])
 					q, _ := json.Marshal(bh[i])
-					if string(p) != string(q) {
-						d = append(d, fmt.Sprintf("heights[%d]: %s != %s", i, p, q))
+					json.Unmarshal(p, &pm)
+					json.Unmarshal(q, &qm)
+					var fk []string
+					for f := range pm {
+						fk = append(fk, f)
+					}
+					sort.Strings(fk)
+					for _, f := range fk {
+						x, _ := json.Marshal(pm[f])
+						y, _ := json.Marshal(qm[f])
+						if string(x) != string(y) {
+							d = append(d, fmt.Sprintf("heights[%d].%s: %s != %s", i, f, x, y))
+						}
 					}
 				}
 			} else {
